@@ -774,4 +774,111 @@ theorem serve_view_host (cfg : Cfg) (lr : LReq) (o : ReqObj) (h : (Spec.serve cf
       rw [← ho]
       exact ⟨(prelude_host _ _).1, (prelude_host _ _).2.1⟩
 
+/-! ## A trusted gateway in front of the decision service (`forwardAuth`, `httpObjFwd`) -/
+
+theorem fwdMethod_canon : canonKey fwdMethod = fwdMethod := by decide
+theorem fwdProto_canon : canonKey fwdProto = fwdProto := by decide
+theorem fwdHost_canon : canonKey fwdHost = fwdHost := by decide
+theorem fwdUri_canon : canonKey fwdUri = fwdUri := by decide
+
+/-- `Header.Get` of the four `X-Forwarded-*` headers on the message of the gateway: what the gateway wrote — the first
+    line of each name —, whatever lines of these names the client sent -/
+theorem headerGet_forwardAuth (g : Gateway) (lr : LReq) :
+    headerGet (group canonKey (forwardAuth g lr).headers) fwdMethod = lr.method ∧
+    headerGet (group canonKey (forwardAuth g lr).headers) fwdProto = lr.scheme ∧
+    headerGet (group canonKey (forwardAuth g lr).headers) fwdHost = lr.host ∧
+    headerGet (group canonKey (forwardAuth g lr).headers) fwdUri = lr.target := by
+  have n1 : ¬ fwdProto = fwdMethod := by decide
+  have n2 : ¬ fwdHost = fwdMethod := by decide
+  have n3 : ¬ fwdUri = fwdMethod := by decide
+  have n4 : ¬ fwdMethod = fwdProto := by decide
+  have n5 : ¬ fwdHost = fwdProto := by decide
+  have n6 : ¬ fwdUri = fwdProto := by decide
+  have n7 : ¬ fwdMethod = fwdHost := by decide
+  have n8 : ¬ fwdProto = fwdHost := by decide
+  have n9 : ¬ fwdUri = fwdHost := by decide
+  have n10 : ¬ fwdMethod = fwdUri := by decide
+  have n11 : ¬ fwdProto = fwdUri := by decide
+  have n12 : ¬ fwdHost = fwdUri := by decide
+  refine ⟨?_, ?_, ?_, ?_⟩ <;>
+    simp [headerGet, lookup_group, forwardAuth, selected_cons, fwdMethod_canon, fwdProto_canon, fwdHost_canon,
+      fwdUri_canon, n1, n2, n3, n4, n5, n6, n7, n8, n9, n10, n11, n12]
+
+/-- a header that is none of the hop headers is looked up among the client's lines only -/
+theorem lookup_group_forwardAuth (g : Gateway) (lr : LReq) (key : Bytes) (hk : untrustedHeaders.contains key = false) :
+    lookup key (group canonKey (forwardAuth g lr).headers) = lookup key (group canonKey lr.headers) := by
+  have h : key ≠ fwdMethod ∧ key ≠ fwdProto ∧ key ≠ fwdHost ∧ key ≠ fwdUri := by
+    refine ⟨?_, ?_, ?_, ?_⟩ <;> (intro he; rw [he] at hk; revert hk; decide)
+  obtain ⟨h1, h2, h3, h4⟩ := h
+  rw [lookup_group, lookup_group]
+  simp [forwardAuth, selected_cons, fwdMethod_canon, fwdProto_canon, fwdHost_canon, fwdUri_canon,
+    Ne.symm h1, Ne.symm h2, Ne.symm h3, Ne.symm h4]
+
+theorem receivedL_slash (t : Bytes) : receivedL ('/' :: t) = '/' :: receivedL t := by
+  simp [receivedL, show pathCharOK '/' = true from by decide]
+
+/-- **The view of a delegated request.** The request context the decision service builds for the message of a
+    trusted gateway holds the view of the logical request the gateway describes. -/
+theorem httpObjFwd_forwardAuth (g : Gateway) (lr : LReq) (hp : Spec.validPath lr.rawPath = true)
+    (hf : Spec.forwardable lr = true) (hg : Spec.validPath g.path = true) :
+    ∃ r, toHTTP (forwardAuth g lr) = some r ∧ r.host = lr.host ∧
+      r.header = group canonKey (forwardAuth g lr).headers ∧
+      r.body = (match lr.body with | none => none | some b => if b.isEmpty then none else some b) ∧
+      httpObjFwd r = Spec.obj lr := by
+  obtain ⟨r, hr, -, hrh, -, -, hq, hh, hb⟩ := toHTTP_some (forwardAuth g lr) hg
+  refine ⟨r, hr, hrh, hh, hb, ?_⟩
+  obtain ⟨hm, hpr, hho, hu⟩ := headerGet_forwardAuth g lr
+  obtain ⟨u, hu1, hu2, hu3⟩ := http_received_path lr hp
+  simp only [Spec.forwardable, Bool.and_eq_true, Bool.not_eq_true'] at hf
+  obtain ⟨⟨⟨hme, hhe⟩, _⟩, hfrag⟩ := hf
+  have hcut : (cut '#' lr.target).1 = lr.target := by
+    rw [cut_not_mem]
+    intro hmem
+    have : lr.target.contains '#' = true := by simpa using hmem
+    rw [this] at hfrag
+    exact Bool.noConfusion hfrag
+  obtain ⟨t, ht⟩ : ∃ t, lr.rawPath = '/' :: t := by
+    simp only [Spec.validPath, Bool.and_eq_true] at hp
+    obtain ⟨⟨⟨hs, _⟩, _⟩, _⟩ := hp
+    cases hr : lr.rawPath with
+    | nil => simp [hr] at hs
+    | cons c t => simp [hr] at hs; exact ⟨t, by rw [hs]⟩
+  have hne : (receivedL lr.rawPath).isEmpty = false := by rw [ht, receivedL_slash]; rfl
+  have htne : lr.target.isEmpty = false := by
+    unfold LReq.target; rw [ht]; split <;> rfl
+  have hsne : lr.scheme.isEmpty = false := by unfold LReq.scheme; split <;> rfl
+  have hq' : r.url.rawQuery = [] := hq
+  have hquery : (if lr.query.isEmpty = true then ([] : Bytes) else lr.query) = lr.query := by
+    cases hql : lr.query <;> simp
+  simp only [fwdMethod, fwdProto, fwdHost, fwdUri] at hm hpr hho hu
+  simp only [httpObjFwd, hh, hm, hpr, hho, hu, goParseRef, hcut, hu1, hu2, hu3, hne, htne, hsne, hme, hhe, hq',
+    hquery, Spec.obj, Spec.url, Bool.false_eq_true, if_false]
+
+/-- … and the view functions: every header other than the hop headers (in every spelling; `Host` is the host of the
+    logical request, which the gateway passes on), every cookie, the decoded body. -/
+theorem httpFuncsOn_forwardAuth (D : Decoder) (g : Gateway) (lr : LReq) (r : HttpReq) (hh : r.host = lr.host)
+    (hhd : r.header = group canonKey (forwardAuth g lr).headers)
+    (hb : r.body = (match lr.body with | none => none | some b => if b.isEmpty then none else some b)) :
+    (∀ name, untrustedHeaders.contains (canonKey name) = false →
+      (httpFuncsOn D r r.header).header name = Spec.header lr name) ∧
+    (httpFuncsOn D r r.header).cookie = Spec.cookie lr ∧
+    (httpFuncsOn D r r.header).body = Spec.body D lr := by
+  have hdr : ∀ name, untrustedHeaders.contains (canonKey name) = false →
+      httpHeader r r.header name = Spec.header lr name := by
+    intro name hn
+    rw [← httpHeader_eq lr r hh name]
+    simp only [httpHeader, hhd, lookup_group_forwardAuth g lr (canonKey name) hn]
+  refine ⟨hdr, ?_, ?_⟩
+  · funext name
+    have hc : untrustedHeaders.contains b!"Cookie" = false := by decide
+    have := lookup_values lr b!"Cookie"
+    rw [cookieKey_canon] at this
+    simp only [httpFuncsOn, hhd, lookup_group_forwardAuth g lr b!"Cookie" hc, Spec.cookie, this]
+  · have hct : untrustedHeaders.contains (canonKey b!"Content-Type") = false := by decide
+    simp only [httpFuncsOn, hb, hdr b!"Content-Type" hct]
+    unfold Spec.body
+    cases lr.body with
+    | none => rfl
+    | some b => by_cases hbe : b.isEmpty = true <;> simp [hbe]
+
 end Heimdall.EntryView
